@@ -1030,11 +1030,20 @@ func execSys(f []string) vlib.Res {
 			gs = append(gs, g)
 		}
 		sort.Slice(gs, func(i, j int) bool { return gs[i].zone < gs[j].zone })
-		e.launchShort(gs, 1500*time.Millisecond)
 		warm := 0
-		for _, g := range gs {
-			for _, c := range g.clients {
-				if len(c.replies) == 1 && c.replies[0].rcode == 0 {
+		for try := 0; try < 2 && warm != len(gs); try++ { // second chance: shared machine
+			var todo []*group
+			for _, g := range gs {
+				if c := g.clients[0]; !(len(c.replies) == 1 && c.replies[0].rcode == 0) {
+					c.replies = nil
+					c.id = e.id()
+					todo = append(todo, g)
+				}
+			}
+			e.launchShort(todo, 1500*time.Millisecond)
+			warm = 0
+			for _, g := range gs {
+				if c := g.clients[0]; len(c.replies) == 1 && c.replies[0].rcode == 0 {
 					warm++
 				}
 			}
